@@ -100,6 +100,7 @@ type VC struct {
 	loopList []*loopInfo
 	backEdge map[[2]int]bool
 	callOrd  map[string]int
+	staticOrd map[ssa.Instruction]int
 	params   map[string]sval
 	closures []*closureRec
 	deferred []*deferRec
@@ -407,7 +408,7 @@ func (vc *VC) ghostKey(name string) (string, *GhostDecl, bool) {
 			for range gd.Params {
 				s = "(Array Int " + s + ")"
 			}
-			vc.keyMetas[key] = keyMeta{Sort: s, Arity: len(gd.Params), Ghost: true}
+			vc.keyMetas[key] = keyMeta{Sort: s, Arity: len(gd.Params), Ghost: true, Local: gd.Local}
 		case "var":
 			s := "Int"
 			if gd.Result == "bool" {
@@ -539,7 +540,7 @@ func (vc *VC) typeFacts(term string, t types.Type, nonnil bool) {
 	}
 	switch u := t.Underlying().(type) {
 	case *types.Slice:
-		vc.assume(fmt.Sprintf("(and (<= 0 (sl_len %s)) (<= (sl_len %s) (sl_cap %s)) (<= 0 (sl_off %s)))", term, term, term, term))
+		vc.assume(fmt.Sprintf("(and (<= 0 (sl_len %s)) (<= (sl_len %s) (sl_cap %s)) (<= 0 (sl_off %s)) (<= 0 (sl_arr %s)) (<= (sl_arr %s) %s))", term, term, term, term, term, term, vc.st.get(vc.allocKey())))
 	case *types.Pointer, *types.Map:
 		vc.assume(fmt.Sprintf("(and (<= 0 %s) (<= %s %s))", term, term, vc.st.get(vc.allocKey())))
 		if nonnil {
